@@ -228,9 +228,21 @@ def strtoll (s0 : Bytes) : Strtoll :=
 inductive NumErr | ok | small | large | invalid
 deriving Repr, DecidableEq
 
-/-- `strtonum(s, minval, maxval, &errstr)`: value and which `errstr` is stored
-    (`ok` = NULL, errno kept; `small`/`large` = ERANGE; `invalid` = EINVAL) -/
+/-- `strtonum(s, minval, maxval, &errstr)` (with repair F39: the OpenBSD order — a string that
+    is not entirely a number is "invalid" even when its digits overflow): value and which `errstr`
+    is stored (`ok` = NULL, errno kept; `small`/`large` = ERANGE; `invalid` = EINVAL) -/
 def strtonum (s : Bytes) (minv maxv : Int) : Int × NumErr :=
+  if minv > maxv then (0, .invalid)
+  else
+    let r := strtoll s
+    if r.consumed ≠ (cstr s).length ∨ r.consumed = 0 then (0, .invalid)
+    else if r.erange then (if r.val < 0 then (0, .small) else (0, .large))
+    else if r.val < minv then (0, .small)
+    else if r.val > maxv then (0, .large)
+    else (r.val, .ok)
+
+/-- the unrepaired order: the ERANGE test came before the trailing-garbage test -/
+def strtonumOld (s : Bytes) (minv maxv : Int) : Int × NumErr :=
   if minv > maxv then (0, .invalid)
   else
     let r := strtoll s
@@ -239,5 +251,19 @@ def strtonum (s : Bytes) (minv maxv : Int) : Int × NumErr :=
     else if r.val < minv then (0, .small)
     else if r.val > maxv then (0, .large)
     else (r.val, .ok)
+
+/-- the string stored through `errstr_p` (`none` = NULL) -/
+def NumErr.errstr : NumErr → Option String
+  | .ok => none
+  | .small => some "too small"
+  | .large => some "too large"
+  | .invalid => some "invalid"
+
+/-- `errno` afterwards (`none` = the caller's value is kept) -/
+def NumErr.errno : NumErr → Option String
+  | .ok => none
+  | .small => some "ERANGE"
+  | .large => some "ERANGE"
+  | .invalid => some "EINVAL"
 
 end Usual.C14
